@@ -111,7 +111,10 @@ def viewDir (st : Stack) (recs : List WireRec) : Except Fail DirView := do
     pure ⟨msgs, idx, pre.length < recs.length⟩
   | .dtlcp =>
     let e0 := recs.filter (fun r => r.p.epoch == 0)
-    let e1 := recs.filter (fun r => r.p.epoch != 0)
+    -- a byte-identical copy of an earlier protected record is a retransmission of stored flight
+    -- bytes (the server's dwell period re-sends its last flight verbatim), not another sealing
+    let e1 := (recs.filter (fun r => r.p.epoch != 0)).foldl
+      (fun (acc : List WireRec) r => if acc.any (fun x => x.raw == r.raw) then acc else acc ++ [r]) []
     let r ← (e0.filter (fun r => r.p.typ == 22)).foldlM (fun acc r => feedDTLCP (r.p.body.length + 1) acc r.p.body) ({} : Reasm)
     if r.cur.isSome then throw ("hs-shape", "incomplete handshake message in the capture")
     pure ⟨r.done.reverse, (List.range e1.length).zip e1, e0.any (fun r => r.p.typ == 20)⟩
@@ -407,35 +410,32 @@ def judgeRX (ct ot : List String) : Option Verdict := do
     let b ← kvHex ct "b"
     let c ← kvHex ct "c"
     let d ← kvHex ct "d"
-    match check mst st suiteId master smaster [] c2s s2c sentc [] [] [] none none with
+    let sents := (kvHex ct "sents").getD []
+    -- whose receive paths are under test: the server's (the client sends) or the client's
+    let fromClient := (kv ct "recv") != some "client"
+    match check mst st suiteId master smaster [] c2s s2c sentc sents [] [] none none with
     | .error f => pure { model := "got=? end=?", spec := some f }
     | .ok (dv, _) =>
       let S := Model.KeySchedule.srcOf mst
-      -- position of the held-back record among the client's protected records = its implicit seq (tlcp)
-      let pos := ((dv.cprot.find? (fun x => x.2.raw == brec)).map (·.1)).getD 0
+      let (keys, prot) := if fromClient then (dv.ckeys, dv.cprot) else (dv.skeys, dv.sprot)
+      -- position of the held-back record among the sender's protected records = its implicit seq (tlcp)
+      let pos := ((prot.find? (fun x => x.2.raw == brec)).map (·.1)).getD 0
       let bp := (parse st brec).map (·.1)
-      -- the standard's verdict on `t`
+      -- the standard's verdict on `t`: its receiver (`Spec.KeySchedule.receive`) under the read state
+      -- the sender's ChangeCipherSpec installed — whatever `t` is (rewritten, Lean-sealed, or never
+      -- protected at all) and whenever it arrives
       let specOpen : Option Bytes :=
-        match parse st t with
-        | some (p, []) =>
-          let seq := match st with | .tlcp => pos | .dtlcp => p.seq
-          if p.ver != 0x0101 then none else
-          match openBody sm dv.sp.mode dv.ckeys st p.typ p.ver p.epoch seq p.body with
-          | .ok x => some x
-          | .error _ => none
+        match receive sm st ⟨dv.sp.mode, keys, 1, pos⟩ 0x0101 t with
+        | some (23, x) => some x
         | _ => none
-      -- the model's verdict: the transcription of `decrypt`, fed as the receive path feeds it
+      -- the model's verdict: the transcription of the receive path up to the record-type switch
       let ciph : Model.KeySchedule.Cipher :=
         match dv.sp.mode with
-        | .gcm => .aead ⟨[], dv.ckeys.key, dv.ckeys.iv⟩
-        | .cbc => .cbc ⟨dv.ckeys.mac, dv.ckeys.key, dv.ckeys.iv⟩
-      let hseq : Bytes := match st with | .tlcp => be 8 pos | .dtlcp => (t.drop 3).take 8
-      let hl := headerLen st
-      let wellFramed := t.length ≥ hl && fromBE ((t.drop (hl - 2)).take 2) + hl == t.length && (t.drop 1).take 2 == be 2 0x0101
+        | .gcm => .aead ⟨[], keys.key, keys.iv⟩
+        | .cbc => .cbc ⟨keys.mac, keys.key, keys.iv⟩
       let modelOpen : Option Bytes :=
-        if !wellFramed then none else
-        match Model.KeySchedule.decrypt sm S mst ⟨some ciph, none, hseq⟩ t with
-        | .ok (x, _) => some x
+        match Model.KeySchedule.rxDeliver sm S mst ⟨⟨some ciph, none, be 8 pos⟩, 0x0101, 1⟩ t with
+        | some (23, x) => some x
         | _ => none
       let slot : Bool :=
         match bp, (parse st t).map (·.1) with
@@ -461,7 +461,8 @@ def judgeRX (ct ot : List String) : Option Verdict := do
           -- `pad…` fields: a CBC record sealed by the Lean side under the sender's keys with long
           -- padding (legal, or with damaged padding bytes); the other fields: a genuine record with
           -- one header field rewritten
-          let what := if field.startsWith "pad" then s!"a CBC record with long padding ('{field}': padding bytes damaged)"
+          let what := if field.startsWith "plain" then s!"a record that was never protected ('{field}': plaintext body behind a type / version{if st == .dtlcp then " / epoch" else ""} header, {(kv ct "at").getD "app"}, receiver = {(kv ct "recv").getD "server"})"
+            else if field.startsWith "pad" then s!"a CBC record with long padding ('{field}': padding bytes damaged)"
             else if field.startsWith "nonce" then s!"a GCM record with a sender-chosen explicit nonce ('{field}')"
             else s!"a record whose header field '{field}' was rewritten"
           -- the rewritten record is a copy of the held-back B (or of an older record): its content
@@ -475,7 +476,9 @@ def judgeRX (ct ot : List String) : Option Verdict := do
           else if field.startsWith "nonce" && !(delivered.contains (hex (specOpen.getD []))) then
             some ("rx-reject", s!"{path}: an SM4-GCM record sealed under this direction's key for the expected epoch/sequence number whose 8-byte explicit nonce is {hex (((parse st t).map (fun x => explicitPart .gcm x.1.body)).getD [])} ('{field}': the sender's choice, not a copy of the sequence number) opens under the standard (nonce = write IV ‖ the explicit part carried in the record) but was not delivered (end={oe})")
           else some ("rx-lost", s!"{path}: genuine records were not delivered as sent (end={oe})")
-      pure { model := s!"got={hexList mg} end={me}", spec := spec, note := if specOpen.isSome then "rx-authentic" else "rx-forged" }
+      let where_ := s!"{if (kv ct "at") == some "hs" then "-hs" else ""}{if fromClient then "" else "-client"}"
+      pure { model := s!"got={hexList mg} end={me}", spec := spec,
+             note := (if specOpen.isSome then "rx-authentic" else if ((kv ct "field").getD "").startsWith "plain" then "rx-unprotected" else "rx-forged") ++ where_ }
   | _, _ => pure { model := "got=? end=?", spec := some ("incomplete", "the connection for the receive-path test could not be set up") }
 
 /-! ### a failed transport write followed by another protected record (op=wf)
@@ -571,12 +574,45 @@ def judgeWF (ct ot : List String) : Option Verdict := do
                note := s!"wf-{(kv ct "next").getD "?"}-{if k == flen then "full" else "partial"}" }
   | _, _ => pure { model := "ok=1 werr=1 tail=?", spec := some ("incomplete", "the connection for the write-fault test could not be set up") }
 
+/-! ### two producers of protected records on one connection (op=cw)
+
+case     : op=cw stack suite side second npre seed          (configuration, re-executable)
+           master smaster pre c2s s2c sentc sents            (captured as for op=hs; the gated side's
+           stream is what was put on the wire, in wire order)
+observed : ok=1 swapped=<1 if a second producer's record reached the wire while the first one,
+           already sealed, was held inside the transport>
+
+The standard's verdict is `check` on the capture: every protected record of each direction, in wire
+order, opens under that direction's key with the next sequence number (DTLCP: carries it).  The
+model's prediction: `writeRecordLocked` seals and hands over a record in ONE step of the connection
+state (`writeOne`: the record it returns is the one that goes out before anything else is sealed),
+so nothing can overtake a sealed record — `swapped=0`. -/
+def judgeCW (ct ot : List String) : Option Verdict := do
+  let (mst, st) ← (kv ct "stack").bind parseStack
+  let suiteId ← kvNat ct "suite"
+  let second := (kv ct "second").getD "?"
+  match kvHex ct "c2s", kvHex ct "s2c" with
+  | some c2s, some s2c =>
+    let master ← kvHex ct "master"
+    let smaster ← kvHex ct "smaster"
+    let sentc ← kvHex ct "sentc"
+    let sents ← kvHex ct "sents"
+    let spec : Option Fail :=
+      match check mst st suiteId master smaster [] c2s s2c sentc sents [] [] none none with
+      | .error (t, why) =>
+        some (t, why ++ (if (kv ot "swapped") == some "1" then
+          s!" [two producers: the record of a second producer ('{second}') was put on the wire while an earlier sealed record was still held in the transport: sealing and hand-over are not one step]" else ""))
+      | .ok _ => none
+    pure { model := "ok=1 swapped=0", spec := spec, note := s!"cw-{second}" }
+  | _, _ => pure { model := "ok=1 swapped=0", spec := some ("incomplete", "the connection for the two-producer test could not be set up") }
+
 def judge (c o : String) : Option Verdict :=
   let ct := tokens c
   let ot := tokens o
   if kv ct "op" == some "hs" then judgeHS ct ot
   else if kv ct "op" == some "rx" then judgeRX ct ot
   else if kv ct "op" == some "wf" then judgeWF ct ot
+  else if kv ct "op" == some "cw" then judgeCW ct ot
   else judgePrim ct ot
 
 end Gotlcp.Oracle.C04HS
